@@ -173,6 +173,8 @@ def build(cfg, bake=True):
     walls = room_walls(cfg)
     nw = len(walls)
     radi = sp.DirectionalRadiosityFast.from_polygon(walls, cfg["patch_size"])
+    if cfg.get("prebake"):
+        radi.bake_geometry()      # baked once before any material is known; baked again below
     din, dout = directions(cfg)
     if cfg.get("assign") == "override":
         # the same final configuration reached by re-assignment: one common material for all
